@@ -4,11 +4,12 @@ import SamlVerif.Driver.Codec
 import SamlVerif.Driver.Xmlenc
 import SamlVerif.Driver.IdP
 import SamlVerif.Driver.Logout
+import SamlVerif.Driver.Bindings
 
 open SamlVerif
 
 def allHandlers : List (String × Proto.P String) :=
-  Driver.SPStruct.handlers ++ Driver.Codec.handlers ++ Driver.XmlencD.handlers ++ Driver.IdPD.handlers ++ Driver.LogoutD.handlers
+  Driver.SPStruct.handlers ++ Driver.Codec.handlers ++ Driver.XmlencD.handlers ++ Driver.IdPD.handlers ++ Driver.LogoutD.handlers ++ Driver.BindingsD.handlers
 
 def answer (line : String) : String :=
   match (line.splitOn " ").filter (· ≠ "") with
